@@ -9,7 +9,9 @@ from . import common
 ID = 'C01'
 LEVEL = 'exploration'
 BUDGET = {'quick': (12000, 80.0), 'thorough': (300000, 1500.0)}
-RULE = ('seeded swarm generation of 2-4 real J1939-21 stacks, 1-8 messages on distinct (SA,DA) pairs submitted within 300 ms; '
+RULE = ('seeded swarm generation of 2-4 real J1939-21 stacks, 1-8 messages on distinct (SA,DA) pairs submitted within 300 ms (plus, in some runs: a second parameter group or the same '
+        'list object again on a pair, submissions from inside the stack\'s own k-th transmission or from the acknowledgement callback, and application calls parked at their k-th library '
+        'source line inside send_pgn for 20 us .. 60 ms while job threads and reception run on); '
         'a run is non-trivial when at least one multi-packet transfer put frames on the bus; distinct = distinct scenario JSON')
 FAULT_COUNTERS = {'application thread parked at a source line inside send_pgn (pre-emption)': 'preempted_calls', 'application send_pgn from inside the stack\'s own transmission': 'reentrant_submissions', "zero-latency bus: reply handled re-entrantly inside the sender's send call (runs)": 'zero_latency_runs'}
 REQUIRED_PROBES = ['cmdt_msgs', 'bam_msgs', 'zero_latency_runs', 'len_mod7_zero', 'refused_busy_pair', 'accepted_same_pair', 'submitted_from_ack_callback', 'preempted_calls', 'shared_buffer_msgs']
